@@ -276,6 +276,11 @@ func c10GenRequest(r *vRand, ds *qeDataset, socket, shortCV bool, hot c10Hot, hi
 			}
 			for i := 0; i < ng; i++ {
 				gc := vPick(r, []string{"plugin_output", "display_name", "state", "check_command", "notes", "alias", "name", "host_name", "custom_variables", "groups"})
+				if socket && (gc == "custom_variables" || gc == "groups") {
+					// list valued keys: different lists can have the same text in result column 0, by which the group
+					// lines are ordered - such lines come out in Go map order (seen: 2 of 4 runs under load differ)
+					gc = "name"
+				}
 				if gc == "custom_variables" && !shortCV {
 					// DESIGN D23 / notes/C10.md: grouping by custom_variables crashes the pinned daemon when a row has
 					// fewer values than names; only with --shortcv
@@ -1236,8 +1241,13 @@ func c10SocketRun(lmd *Daemon, idx int, texts []string, obs []*c10Obs, pipeline 
 			}
 		}
 	}
-	// is the connection still open? the daemon closes right after a non keep-alive answer
-	closed = readAll(150 * time.Millisecond)
+	// is the connection still open? the daemon closes right after a non keep-alive answer: under load that
+	// can take longer than the 150ms which are enough to see that a keep-alive connection stays open
+	wait := 150 * time.Millisecond
+	if n := len(obs); n > 0 && obs[n-1].get && obs[n-1].closes {
+		wait = 5 * time.Second
+	}
+	closed = readAll(wait)
 	hist(fmt.Sprintf("socket:closed=%v", closed))
 
 	return stream, closed, note
